@@ -20,10 +20,15 @@ XRIs == {"none", "v4", "v6", "bad", "multi"}      \* multi: two X-Real-Ip lines 
 XRPs == {"none", "num", "bad"}
 XFFs == {"none", "one", "two", "v6", "bad"}
 
-VARIABLES fam, trusted, xri, xrp, xff, done
-vars == <<fam, trusted, xri, xrp, xff, done>>
-Init == fam \in Fams /\ trusted \in BOOLEAN /\ xri \in XRIs /\ xrp \in XRPs /\ xff \in XFFs /\ done = FALSE
-Next == ~done /\ done' = TRUE /\ UNCHANGED <<fam, trusted, xri, xrp, xff>>
+\* how the trusted-source table in force was reached: "fresh" = first table that decides about the peer;
+\* "revoked" = an earlier table trusted the peer and a reload (data file with the SAME Version string,
+\* the peer's range dropped) removed it.  The property speaks about the table in force, not its history.
+Hists == {"fresh", "revoked"}
+VARIABLES fam, trusted, hist, xri, xrp, xff, done
+vars == <<fam, trusted, hist, xri, xrp, xff, done>>
+Init == /\ fam \in Fams /\ trusted \in BOOLEAN /\ hist \in Hists /\ (hist = "revoked" => ~trusted)
+        /\ xri \in XRIs /\ xrp \in XRPs /\ xff \in XFFs /\ done = FALSE
+Next == ~done /\ done' = TRUE /\ UNCHANGED <<fam, trusted, hist, xri, xrp, xff>>
 
 XriVals == CASE xri = "none" -> <<>> [] xri = "v4" -> <<"1.2.3.4">> [] xri = "v6" -> <<"2001:db8::1">>
              [] xri = "bad" -> <<"999.1.1.1">> [] OTHER -> <<"1.2.3.4", "5.6.7.8">>
